@@ -548,8 +548,12 @@ class ProcGen(SqlGen):
             return self.update(2)
         if r < 0.6:
             return self.insert(2)
-        if r < 0.8:
+        if r < 0.7:
             return [nm(self.ident_plain()), WS0, ('op', ':='), WS0] + self.expr(2)
+        if r < 0.8:
+            # a qualified name whose last part is a block keyword (NEW.end, r.begin, slot.loop): a Name after the period
+            return [nm(self.ident_plain()), WS0, ('op', ':='), WS0, nm(self.r.choice(['NEW', 'r', 'slot'])), ('punct', '.'),
+                    nm(self.r.choice(['end', 'begin', 'loop', 'if', 'case', 'declare', 'END', 'while']))]
         if r < 0.9:
             return [kw('RETURN'), WS1] + self.expr(2)
         return [kw('RAISE'), WS1, kw('NOTICE'), WS1] + self.string()
